@@ -17,7 +17,8 @@ EXPLANATION = ("Path enumeration (structured CFG walk with constant-flag pruning
                "methods of soc.py and generic_platform.py: must-pass-through and dominance obligations between "
                "registry writes and their validation, attribute read sets, mirror-image comparison of the "
                "disjointness tests, bound agreement between validator and allocator.")
-TECHNIQUE = "per-function path enumeration (must-pass-through/dominance) + attribute read sets + twin comparison"
+TECHNIQUE = ("abstract interpretation of the allocation / registration helpers on model handlers (call histories over an enu"
+             "merated grid, state compared with the property) + per-function path enumeration (dominance) + twin comparison")
 
 
 def _test_idx(p, pred, start=0, end=None):
